@@ -71,6 +71,7 @@ def run_shards(argv_fn, total, nworkers=None, env=None, first_index=0, hang_s=12
                 et.start()
                 inflight = None
                 phase = None
+                step = None
                 partial = None
                 reported = set()
                 q = queue.Queue()
@@ -96,6 +97,7 @@ def run_shards(argv_fn, total, nworkers=None, env=None, first_index=0, hang_s=12
                     if "begin" in rec:
                         inflight = rec["begin"]
                         phase = rec.get("phase")
+                        step = rec.get("step")
                         partial = None
                         continue
                     if "partial" in rec:
@@ -114,7 +116,7 @@ def run_shards(argv_fn, total, nworkers=None, env=None, first_index=0, hang_s=12
                     with lock:
                         stats["hangs"] += 1
                 if inflight is not None and inflight not in reported:
-                    rec = {"run": inflight, "verdict": "died", "exit": rc, "hung": hung, "stderr": _clip(err), "phase": phase}
+                    rec = {"run": inflight, "verdict": "died", "exit": rc, "hung": hung, "stderr": _clip(err), "phase": phase, "step": step}
                     if partial:
                         rec["spec"] = partial.get("spec")
                         rec["trace"] = partial.get("trace")
